@@ -203,6 +203,9 @@ class RegionVisual(Meta):
         kwargs = {}
         for name, val in self.items():
             if name in keymap:
+                if keymap[name] == 'fillstyle' and not isinstance(val, str):
+                    # the region's fill flag; Line2D takes a fill style
+                    val = 'full' if val else 'none'
                 # NOTE: this will override existing mpl kwargs
                 kwargs[keymap[name]] = val
             else:
